@@ -97,6 +97,30 @@ theorem C06_flush_log_returns_concurrent (s0 : BSt) (hA : PA.Fresh s0) (hF : Sta
       omega
   exact ⟨hflag, fun a x hx hpd => ((resume_flag _ a x f hx hpd).1 hflag).2⟩
 
+/-- **`flush_log()` returns — every configuration, no premise** (ordering enabled or disabled, either refresh order, stalled and
+    blocked calls allowed). For an arbitrary schedule `pre ++ suffix`: if the events popped by the end of `pre` plus the productive
+    operations of `suffix` reach the number of records accepted in the whole run, everything has been processed; in particular
+    the flag of every accepted Flush request is raised. (The bound counts the statements logged during `suffix` too; the sharper
+    bounds below do not.) -/
+theorem C06_flush_log_returns_concurrent_total (s0 : BSt) (hA : PA.Fresh s0) (hF : StartF s0) (pre suffix : List Op)
+    (i : Nat) (st : Stmt) (f : Nat) (hst : st ∈ ((runOps s0 (pre ++ suffix)).th i).accepted) (hk : st.kind = .flush f)
+    (hn : accTotal (runOps s0 (pre ++ suffix)) ≤ (runOps s0 pre).popLog.length + productive (runOps s0 pre) suffix) :
+    f ∈ (runOps s0 (pre ++ suffix)).flags := by
+  have hfi := (start_FI hF).runOps (pre ++ suffix)
+  have hai := hA.inv.run (pre ++ suffix)
+  have e : runOps s0 (pre ++ suffix) = runOps (runOps s0 pre) suffix := by simp [runOps, List.foldl_append]
+  have hle := productive_le suffix (runOps s0 pre)
+  rw [← e] at hle
+  have hacc := hst
+  rw [hfi.cons i, List.append_assoc] at hacc
+  rcases List.mem_append.mp hacc with h1 | h1
+  · rcases hfi.popFlag i st h1 f hk with h2 | h2
+    · exact h2
+    · cases h2
+  · exfalso
+    have := pops_lt_total hai hfi (i := i) (st := st) h1
+    omega
+
 /-- **Past the grace period nothing older can arrive.** For every schedule `pre ++ suffix` satisfying the grace premise:
     once the clock (at the end of `pre`) is past `T + grace`, the number of records with timestamp `≤ T` accepted by all
     contexts does not change any more — a thread that keeps enqueueing records with timestamps below a given one does not
